@@ -172,7 +172,7 @@ def mutate(rng, text, corpus, max_len):
     return text[:max_len]
 
 
-def campaign(shard, nshards, tier, prop, arm, quick, thorough, wrap=None, max_len=240, stats=None, valid_only=False):
+def campaign(shard, nshards, tier, prop, arm, quick, thorough, wrap=None, max_len=240, stats=None, valid_only=False, extra_seeds=()):
     """Generator of candidate cases for one shard.  `wrap(text)` turns a candidate into the check's case shape.
     valid_only: only texts the pure-Python scanner and parser accept enter the corpus (for arms whose oracle starts from a loaded
     value or a parsed event stream; rejected candidates are still evaluated - and counted as such - but never bred)."""
@@ -189,7 +189,9 @@ def campaign(shard, nshards, tier, prop, arm, quick, thorough, wrap=None, max_le
     corpus = []
     seeds = seed_corpus() if shard % 2 == 0 else []
     rng.shuffle(seeds)
-    queue = list(seeds[:40]) + ["", "a", "- a\n", "a: b\n"]
+    # extra_seeds: a few small texts of the shape the arm's oracle is about (every shard, also the empty-corpus ones: without them
+    # a campaign under an oracle about aliases or merge keys spends its budget on texts the oracle only counts)
+    queue = list(seeds[:40]) + list(extra_seeds) + ["", "a", "- a\n", "a: b\n"]
     cov.start()
     try:
         done = 0
